@@ -4,7 +4,7 @@
    and returns both answers.  All request-specific logic is here in Coq, so that
    the OCaml side is a 100-line parser/printer. *)
 From Coq Require Import List NArith Bool.
-From Traph Require Import Bytes Consts Helpers Rules Tst Traph Spec Codec Storage Traphw.
+From Traph Require Import Bytes Consts Helpers Rules Tst Traph Spec Codec Storage Traphw Sched.
 Import ListNotations.
 Open Scope N_scope.
 
@@ -82,6 +82,37 @@ Definition a_graph (g : list (N * N * N * N)) : ans :=
   a_list (fun '(a, b, c, v) => AList [ANum a; ANum b; ANum c; ANum v]) g.
 
 Definition both (m a : ans) : ans := AList [m; a].
+
+(* ---- coroutines (C16) ---- *)
+Definition g_coro (x : ans) : coro :=
+  match g_list x with
+  | [ANum 0; d] => CBatch (batch_start (g_batch d))
+  | [ANum 1; p; k] => CRule (rule_start (g_bytes p) (g_kind k))
+  | [ANum 2; _; ps] => CPages (pagesq_start (g_blist ps))
+  | _ => CPages (pagesq_start [])
+  end.
+Definition a_coro (c : coro) : ans :=
+  match c with
+  | CBatch b => AList [a_bool (b_done b); a_reply (Report (b_n b) (b_c b))]
+  | CRule r => AList [a_bool (r_done r); a_reply (Report (r_n r) (r_c r))]
+  | CPages q => AList [a_bool (q_done q); if q_refused q then ARefused else a_list a_page (q_acc q)]
+  end.
+Fixpoint finish_all (n : nat) (cs : list coro) (m : traph) : list coro * traph :=
+  match n with
+  | O => (cs, m)
+  | S k =>
+      let '(cs', m') := finish_all k cs m in
+      match nth_error cs' k with
+      | Some c => let '(c', m'') := run_alone 100000 c m' in (set_nth_co k c' cs', m'')
+      | None => (cs', m')
+      end
+  end.
+Definition seq_spec (x : ans) (a : astate) : astate :=
+  match g_list x with
+  | [ANum 0; d] => fst (s_batch (g_batch d) a)
+  | [ANum 1; p; k] => fst (s_add_rule (g_bytes p) (g_kind k) true (pages_beneath (g_bytes p) a) a)
+  | _ => a
+  end.
 
 (* write requests: run both sides *)
 Definition wr (st : dstate) (rm : traph * reply) (ra : astate * reply) : dstate * ans :=
@@ -195,6 +226,16 @@ Definition exec (op : N) (args : list ans) (st : dstate) : dstate * ans :=
       let '(fs, fr) := file_run (g_num A0) (mkF [] 0) ops in
       let '(ms, mr) := mem_run (g_num A0) (mkM [] 0) ops in
       (st, both (AList [a_list a_sres fr; ABytes (f_data fs)]) (AList [a_list a_sres mr; ABytes (m_data ms)]))
+  | 80 =>
+      (* cooperative interleaving: start the coroutines, advance them as the schedule says, then
+         finish the unfinished ones in index order.  The specification side applies the writing
+         requests one after another (the property: final pages and links are those). *)
+      let cs := map g_coro (g_list A0) in
+      let sched := map (fun x => N.to_nat (g_num x)) (g_list A1) in
+      let '(cs1, m1) := exec_sched sched cs m in
+      let '(cs2, m2) := finish_all (length cs1) cs1 m1 in
+      let a2 := fold_left (fun a x => seq_spec x a) (g_list A0) a in
+      (mkD m2 a2, both (a_list a_coro cs2) ANone)
   | _ => (st, ACrash)
   end.
 
